@@ -3,7 +3,9 @@ claim("C17",
       "Inputs: the library's own JSON and MessagePack encodings of generated values (all kinds, nulls, dynamic wrappers, refined unknowns for MessagePack) and JSON type descriptors (incl. optional lists), "
       "subjected to 1..4 mutations (bit/byte flip, insert, delete, truncate, length-field edits of array/map/str/bin/ext headers to 2^16..2^32-1, JSON token edits: delimiter swap, key duplication, "
       "type-descriptor and optional-list edits, dynamic-wrapper edits, synthesized refinement maps, splices from other encodings), against the original, an edited or an unrelated target type "
-      "(never with optional attributes); random bytes / token soup; and hostile shapes pre+open^n+leaf+close^n up to the 64 KiB input bound (deep nesting, wide collections, huge headers, long scalars). "
+      "(never with optional attributes); hand-written documents that never pass through the library's encoders: MessagePack unknown-value extensions whose refinement map is well-typed for the requested type but has hostile magnitudes, "
+      "coinciding bounds and repeated keys (refine/), and dynamic-value wrappers in both formats whose type description is dense in optional-attribute lists at any depth with null / unknown / empty / minimal value parts (wrapper/); "
+      "strings re-spelled in canonically equivalent non-NFC forms; random bytes / token soup; and hostile shapes pre+open^n+leaf+close^n up to the 64 KiB input bound (deep nesting, wide collections, huge headers, long scalars). "
       "Decoders: ctyjson.Unmarshal, ctyjson.UnmarshalType and cty.Type.UnmarshalJSON, ctyjson.ImpliedType, msgpack.Unmarshal, msgpack.ImpliedType. Every call of the facets runs in a re-exec'd worker "
       "process with RLIMIT_AS = 16 GiB, strictly request/response, so a fatal error (out of memory, stack overflow) is attributed to the input in flight. Oracle: error, or a value passing wf.Check whose "
       "type conforms to the requested type by the harness's structural model and by Type.TestConformance (type decoders: a type on which the public accessors and constructors do not panic); never a "
